@@ -197,7 +197,7 @@ func checkC09(c *Ctx) {
 				// two passes per scenario: fine granularity at bound 1, coarser at bound 2.
 				bound, mod := 2, 32
 				if c.Thorough() {
-					mod = 24
+					mod = 12
 				}
 				var names []string
 				for _, k := range idx {
@@ -257,12 +257,16 @@ func checkC09(c *Ctx) {
 					}
 				}
 				if pass == 1 {
-					st1 := exploreSharded(vrt.Options{Fuel: 50000000, YieldTick: true, YieldMod: 4}, 1, 300000, setup, body, checkOut, shard, nshards)
+					mod1, cap1 := 4, int64(300000)
+					if c.Thorough() {
+						mod1, cap1 = 1, 2000000 // every instrumented point is a yield point
+					}
+					st1 := exploreSharded(vrt.Options{Fuel: 50000000, YieldTick: true, YieldMod: mod1}, 1, cap1, setup, body, checkOut, shard, nshards)
 					c.Count("schedules", st1.Execs)
 					c.Max("max_schedule_points", int64(st1.MaxPoints))
 					c.Max("threads", int64(nThreads))
 					if st1.Capped {
-						c.Cap("schedule exploration (bound 1) capped at 300000 for " + strings.Join(names, " || "))
+						c.Cap(fmt.Sprintf("schedule exploration (bound 1) capped at %d per worker for ", cap1) + strings.Join(names, " || "))
 					}
 					if owner {
 						c.Observe(strings.Join(names, " || ")+" bound 1", "ok")
@@ -270,7 +274,11 @@ func checkC09(c *Ctx) {
 					}
 					continue
 				}
-				st := exploreSharded(vrt.Options{Fuel: 50000000, YieldTick: true, YieldMod: mod}, bound, 300000, setup, body, func(v vrt.Verdict, prefix []int) {
+				cap2 := int64(300000)
+				if c.Thorough() {
+					cap2 = 2000000
+				}
+				st := exploreSharded(vrt.Options{Fuel: 50000000, YieldTick: true, YieldMod: mod}, bound, cap2, setup, body, func(v vrt.Verdict, prefix []int) {
 					cs.Schedule = prefix
 					switch {
 					case v.Panic != nil:
@@ -292,7 +300,7 @@ func checkC09(c *Ctx) {
 				c.Max("max_schedule_points", int64(st.MaxPoints))
 				c.Max("threads", int64(nThreads))
 				if st.Capped {
-					c.Cap("schedule exploration capped at 300000 for " + strings.Join(names, " || "))
+					c.Cap(fmt.Sprintf("schedule exploration capped at %d per worker for ", cap2) + strings.Join(names, " || "))
 				}
 				if owner {
 					c.ObserveLocal(strings.Join(names, " || ")+" bound 2", "ok")
